@@ -364,6 +364,91 @@ Section Handshake.
     - right. rewrite Hy. cbn [rmap]. eexists _, _, _, r'. split; [reflexivity|].
       rewrite Hnodes2. auto.
   Qed.
+  (* ---- the ACK direction: a answers the SYN-ACK with what b lacks ---- *)
+  Theorem ack_offers_first_stale now a dgb x ord a' y evs n rest :
+    node_inv a -> delta_wf x ->
+    process_message zc now a (SynAck dgb x) ord = Ok (a', Some (Ack y), evs) ->
+    let mtu := P_MAX_UDP - P_RESERVE_ACK in
+    arrange ord (stale_nodes (nd_cs a') dgb (scheduled now a')) = Some (n :: rest) ->
+    room mtu n ->
+    exists j mv ps dgc dmax,
+      nds y = node_piece n j mv :: ps /\ nonempty_piece n j mv /\
+      In n (stale_nodes (nd_cs a') dgb (scheduled now a')) /\
+      advertised dgb (sn_id n) = (dgc, dmax) /\
+      mk_node_delta (sn_id n) (sn_copy n) dgc dmax j mv = Some (node_piece n j mv) /\
+      Forall nd_bounded ps /\ dlen y <= mtu.
+  Proof.
+    intros Hinv Hwf Hrun mtu Harr Hroom.
+    unfold process_message in Hrun.
+    set (a1 := report_heartbeats_in_digest now (update_self_heartbeat a) dgb) in *.
+    pose proof (update_self_heartbeat_inv a Hinv) as H0.
+    pose proof (report_heartbeats_inv now dgb _ H0) as H1. fold a1 in H1.
+    destruct (process_delta now a1 x) as [[a2 evs2]| |] eqn:Hpd; cbn [rbind] in Hrun; try discriminate.
+    pose proof (process_delta_inv now a1 x a2 evs2 H1 Hwf Hpd) as H2.
+    destruct (compute_delta zc (nd_cs a2) dgb (P_MAX_UDP - P_RESERVE_ACK) (scheduled now a2) ord) as [y0| |] eqn:Ey;
+      cbn [rmap] in Hrun; try discriminate.
+    injection Hrun as <- <- _.
+    unfold compute_delta in Ey. rewrite Harr in Ey.
+    destruct (staleness_desc (n :: rest)); [|discriminate].
+    unfold compute_delta_ordered, ds_with_mtu in Ey.
+    assert (Hmin : P_MIN_MTU <= P_MAX_UDP - P_RESERVE_ACK) by (vm_compute; discriminate).
+    fold mtu in Ey, Hmin.
+    destruct (mtu <? P_MIN_MTU) eqn:Em; [apply N.ltb_lt in Em; lia|]. cbn [rbind] in Ey.
+    destruct H2 as [Hs Hc].
+    pose proof (arrange_perm _ _ _ Harr) as Hperm.
+    assert (Hmax : mtu <= u16_max) by (pose proof p_max_udp_le_u16; unfold mtu; lia).
+    assert (Hnd : NoDup (map sn_id (n :: rest))).
+    { eapply Permutation_NoDup; [apply Permutation_map; exact Hperm|]. apply stale_nodes_nodup. exact Hs. }
+    assert (Hnok : forall m, In m (n :: rest) -> node_ok m).
+    { intros m Hm. unfold node_ok, sorted_of.
+      apply (Permutation_in _ (Permutation_sym Hperm)) in Hm.
+      unfold stale_nodes in Hm. apply filter_map_in in Hm as (e & He & Hcand).
+      destruct (stale_candidate_some _ _ _ _ Hcand) as (_ & Hcopy & _).
+      rewrite Hcopy. apply (asc_from_weaken (sn_from m)); [lia|].
+      apply stale_sorted_strict. destruct e as [i c]. eapply Hc. exact He. }
+    destruct (delta_loop_first zc zc_len n rest mtu Hmin Hmax Hnd Hnok Hroom)
+      as (x0 & j & mv & ps & Hx0 & Hlen & Hnds & Hj & Hne & Hpieces).
+    change (mkDS mtu new_builder (new_writer (N.min P_BLOCK_THRESHOLD mtu))) with (s_init mtu) in Ey.
+    rewrite Hx0 in Ey. injection Ey as <-.
+    assert (Hin : In n (stale_nodes (nd_cs a2) dgb (scheduled now a2))).
+    { apply (Permutation_in _ (Permutation_sym Hperm)). left. reflexivity. }
+    destruct (node_piece_is_mk_node_delta (nd_cs a2) dgb (scheduled now a2) n j mv Hin) as (dgc & dmax & Hd & Hmk).
+    exists j, mv, ps, dgc, dmax. split; [exact Hnds|]. split; [exact Hne|]. split; [exact Hin|].
+    split; [exact Hd|]. split; [exact Hmk|]. split; [|exact Hlen].
+    assert (Hall : Forall nd_bounded (nds x0)).
+    { apply Forall_forall. intros nd Hnd0.
+      destruct (pieces_of_in _ _ Hpieces nd Hnd0) as (m & jm & mvm & Hm & -> & _).
+      apply (Permutation_in _ (Permutation_sym Hperm)) in Hm.
+      destruct (node_piece_is_mk_node_delta (nd_cs a2) dgb (scheduled now a2) m jm mvm Hm) as (g1 & g2 & _ & Hmk').
+      eapply mk_node_delta_bounded. exact Hmk'. }
+    rewrite Hnds in Hall. inversion Hall; assumption.
+  Qed.
+
+  (* b applies the ACK: if its copy of the offered member is as its SYN-ACK digest advertised, that
+     copy strictly advances and none moves back (an ACK is never answered) *)
+  Theorem ack_applied_advances now b y n j mv ps dgc dmax r :
+    delta_wf y ->
+    let b0 := update_self_heartbeat b in
+    nds y = node_piece n j mv :: ps ->
+    mk_node_delta (sn_id n) (sn_copy n) dgc dmax j mv = Some (node_piece n j mv) ->
+    (d_kvs (node_piece n j mv) <> [] \/ 0 < d_max (node_piece n j mv)) ->
+    nm_get (sn_id n) (cs_nodes (nd_cs b0)) = Some r -> (c_gc r, c_max r) = (dgc, dmax) ->
+    exists b' evs r',
+      process_message zc now b (Ack y) [] = Ok (b', None, evs) /\
+      nm_get (sn_id n) (cs_nodes (nd_cs b')) = Some r' /\ frontier_lt r r' /\
+      (forall i c, nm_get i (cs_nodes (nd_cs b0)) = Some c ->
+                   exists c', nm_get i (cs_nodes (nd_cs b')) = Some c' /\ frontier_le c c').
+  Proof.
+    intros Hwf b0 Hnds Hmk Hop Hr Hadv. injection Hadv as <- <-.
+    assert (Hps : Forall nd_bounded ps).
+    { unfold delta_wf in Hwf. rewrite Hnds in Hwf. inversion Hwf as [|? ? _ Hw]; subst.
+      eapply Forall_impl; [apply nd_wf_bounded|exact Hw]. }
+    destruct (offer_applied_advances now (cs_nodes (nd_cs b0)) (sn_id n) (sn_copy n) r j mv _ ps false [] Hr Hmk Hop Hps)
+      as (nodes' & reset' & evs' & r' & Hrun & Hr' & Hlt & Hmono).
+    unfold process_message. fold b0. unfold process_delta, cluster_apply_delta. rewrite Hnds, Hrun. cbn [rmap fst snd].
+    eexists _, _, r'. split; [reflexivity|].
+    destruct (reset' && cf_has_cb (nd_cfg b0)); cbn [nd_cs with_cs cs_nodes]; auto.
+  Qed.
 End Handshake.
 
 (* ================= deliverability and the bounded measure ================= *)
